@@ -20,7 +20,11 @@ codec's own bookkeeping):
            co-iterated two-finger style must each present exactly the elements of their layout (again with the
            handles resolved at once, and kept until every scan of the schedule has ended);
   reuse    one Codec object encoding a sequence of tensors (same depth; rank ids the same, permuted or different):
-           every encoding is decoded and scanned exactly as above under that tensor's own rank ids.
+           every encoding is decoded and scanned exactly as above under that tensor's own rank ids;
+  cache    the cache attached to the encoded fibers models a buffer: what a scan presents does not depend on what the
+           cache holds - a fresh one per encoding, ONE cache object serving the fibers of every encoding of a sequence
+           (so it already holds what the fibers of the earlier encodings put there, under whatever names they have),
+           unbounded or a small bounded LRU.
 """
 import bisect
 import contextlib
@@ -54,8 +58,12 @@ SPEC = {
              "resolved (handleToCoord / handleToPayload / payloadToValue) as soon as nextInSlice returned it, and all "
              "handles of the scan kept and resolved after the scan (schedule) has ended, coordinates in scan order, "
              "payloads from the last handle back to the first.  "
+             "Cache (every kind): the stub cache attached to the encoded fibers is unbounded or (random part) an LRU "
+             "of 4 / 32 entries; kind 'seq' with cache='shared': ONE cache object is attached to the fibers of every "
+             "encoding of the sequence (fibers named T_<rank id>_<index> as in swoop_util, so encodings with the same rank "
+             "ids use the same names), every systematic sequence is run with fresh and with shared caches.  "
              "Non-trivial = the tensor holds at least one non-zero leaf and the encoding was produced; distinct = "
-             "distinct (tree, shape, rank ids, descriptor, imposed shape, rank ids the codec encoded before)."),
+             "distinct (tree, shape, rank ids, descriptor, imposed shape, rank ids the codec encoded before, cache mode)."),
     "shards": {"quick": 16, "thorough": 16},
     "min_counts": {"quick": {"evaluations": 4000, "oracle_evals": 60000, "encodings": 4000, "decodes_ok": 3000,
                              "fibers_scanned": 20000, "kept_handle_scans": 20000,
@@ -63,14 +71,17 @@ SPEC = {
                              "imposed_shape_cases": 1000, "empty_fiber_cases": 500, "allzero_cases": 50,
                              "multiword_mask_fibers": 20,
                              "concurrent_scans": 20000, "coiterations": 2000, "nested_walks": 3000,
-                             "reused_codec_encodings": 500, "rank_id_changes": 300, "cross_tensor_coiterations": 300},
+                             "reused_codec_encodings": 500, "rank_id_changes": 300, "cross_tensor_coiterations": 300,
+                             "shared_cache_encodings": 150, "shared_cache_same_names": 40,
+                             "bounded_cache_encodings": 300},
                    "thorough": {"evaluations": 60000, "oracle_evals": 1000000, "encodings": 60000,
                                 "fibers_scanned": 300000, "kept_handle_scans": 300000,
                                 "kept_handle_concurrent_scans": 150000, "lookup_queries": 300000, "sizes_checked": 300000,
                                 "multiword_mask_fibers": 300,
                                 "concurrent_scans": 300000, "coiterations": 30000, "nested_walks": 50000,
                                 "reused_codec_encodings": 5000, "rank_id_changes": 3000,
-                                "cross_tensor_coiterations": 3000}},
+                                "cross_tensor_coiterations": 3000, "shared_cache_encodings": 1500,
+                                "shared_cache_same_names": 400, "bounded_cache_encodings": 3000}},
     "budget_s": {"quick": 150, "thorough": 900},
     "timeout_s": {"quick": 600, "thorough": 1800},
     "assumptions": [
@@ -95,6 +106,11 @@ SPEC = {
         "the scan and then resolves the handles 'scans the fiber through its handle interface' as much as one that "
         "resolves each handle before asking for the next",
         "cache hit/miss statistics and read/write counters are not part of the property; the library's prints are discarded",
+        "the cache attached to the encoded fibers (attribute `cache`, any object with get / item assignment / miss_count / "
+        "hit_count) is an access model, not storage: the elements a fiber presents are those of its own arrays whatever the "
+        "cache already holds - nothing, entries of earlier scans of the same fiber, entries put there by the fibers of other "
+        "encodings sharing the cache object (one modelled buffer serving several tensors; fibers of tensors with the same "
+        "name and rank ids carry the same fiber names), and whether or not the cache evicts (bounded LRU)",
         "word count of a fiber with n stored elements and shape s (reading of 'coordinates or mask words, occupancy entries, "
         "payload entries'): coordinate words U 0, C n, B ceil(s/32); occupancy entries one per slot (U: s, C/B: n) iff the "
         "child rank is compressed (C/B); payload entries one per slot at a leaf, and one child reference per element for "
@@ -165,10 +181,12 @@ def generate(rng, tier, shard, nshards, mon):
     mon.exhaustive["small-scope trees x all descriptors x {no, +1/+2} imposed shape"] = True
     for depth, items in _systematic_seqs():
         for desc in _descs(depth):
-            if idx % nshards == shard:
-                yield {"kind": "seq", "depth": depth, "desc": desc, "items": items, "sys": True}
-            idx += 1
-    mon.exhaustive["fixed rank-id sequences (same / permuted / disjoint ids) on one codec x all descriptors"] = True
+            for cmode in ("fresh", "shared"):
+                if idx % nshards == shard:
+                    yield {"kind": "seq", "depth": depth, "desc": desc, "items": items, "sys": True, "cache": cmode}
+                idx += 1
+    mon.exhaustive["fixed rank-id sequences (same / permuted / disjoint ids) on one codec x all descriptors "
+                   "x {fresh, shared} cache"] = True
     nseqs = (NSEQS_QUICK if tier == "quick" else NSEQS_THOROUGH) // nshards + 1
     for _ in range(nseqs):
         depth, items = _random_seq(rng)
@@ -178,13 +196,15 @@ def generate(rng, tier, shard, nshards, mon):
             for it in its:
                 if it.pop("impose", False):
                     it["imposed"] = _random_imposed(rng, it["shape"], desc)
-            yield {"kind": "seq", "depth": depth, "desc": desc, "items": its}
+            yield {"kind": "seq", "depth": depth, "desc": desc, "items": its,
+                   "cache": rng.choice(["fresh", "shared", "shared"]), "cache_cap": rng.choice([None, None, 4, 32])}
     ntensors = (NTENSORS_QUICK if tier == "quick" else NTENSORS_THOROUGH) // nshards + 1
     for _ in range(ntensors):
         base = _random_tensor(rng)
         depth = base["depth"]
         if rng.random() < 0.3:
             base["rank_ids"] = rng.sample(ID_POOL, depth)
+        base["cache_cap"] = rng.choice([None, None, None, 4, 32])
         descs = _descs(depth)
         for desc in descs:
             case = dict(base)
@@ -450,17 +470,30 @@ class _Null:
 class StubCache(dict):
     """Stands in for the boltons LRU of the reference scripts (get / item assignment / miss_count / hit_count)."""
 
-    def __init__(self):
+    def __init__(self, capacity=None):
         dict.__init__(self)
         self.miss_count = 0
         self.hit_count = 0
+        self.capacity = capacity        # None = unbounded, else least-recently-used eviction
+        self.served = 0                 # number of encodings whose fibers were attached to this cache before
+        self.names = set()              # fiber names attached so far
 
     def get(self, key, default=None):
         if key in self:
             self.hit_count += 1
-            return self[key]
+            val = dict.pop(self, key)
+            dict.__setitem__(self, key, val)        # most recently used last
+            return val
         self.miss_count += 1
         return default
+
+    def __setitem__(self, key, val):
+        if key in self:
+            dict.pop(self, key)
+        dict.__setitem__(self, key, val)
+        if self.capacity is not None:
+            while len(self) > self.capacity:
+                dict.pop(self, next(iter(self)))
 
     def __repr__(self):
         return "<stub cache>"
@@ -491,7 +524,12 @@ def make_codec(desc):
     return Codec(tuple(desc), [True] * len(desc))
 
 
-def encode(t, desc, imposed, codec=None):
+def _cache_tag(fib):
+    """Key suffix: the fiber's cache was already used by the fibers of an earlier encoding."""
+    return ":cache-used-by-earlier-encoding" if getattr(getattr(fib, "cache", None), "served", 0) > 1 else ""
+
+
+def encode(t, desc, imposed, codec=None, cache=None):
     if codec is None:
         codec = make_codec(desc)
     rank_ids = t.getRankIds()
@@ -499,12 +537,18 @@ def encode(t, desc, imposed, codec=None):
     output_tensor = [list() for _ in range(len(desc) + 1)]
     codec.encode(-1, t.getRoot(), rank_ids, output, output_tensor, shape=imposed)
     # name the fibers and give them a cache, as the documented entry sequence (swoop_util) does
-    cache = StubCache()
+    if cache is None:
+        cache = StubCache()
+    cache.served += 1
     names = ["root"] + list(rank_ids)
+    mine = set()
     for ri, rank in enumerate(output_tensor):
         for fi, fiber in enumerate(rank):
             fiber.setName("_".join(["T", names[ri], str(fi)]))
             fiber.cache = cache
+            mine.add(fiber.name)
+    cache.same_names = bool(mine & cache.names)
+    cache.names |= mine
     return output, output_tensor
 
 
@@ -568,15 +612,17 @@ def _run_case(case, mon):
         mon.violation(f"encode:raised:{type(e).__name__}", f"Codec({desc}) raised {type(e).__name__}: {e}")
         return
     before, done = [], []
+    shared = StubCache(case.get("cache_cap")) if case.get("cache") == "shared" else None
     for pos, item in enumerate(case["items"]):
         sub = dict(item)
         sub["depth"], sub["desc"] = depth, desc
+        sub["cache_cap"] = case.get("cache_cap")
         ids = rank_ids_of(sub, depth)
         if pos:
             mon.count("reused_codec_encodings")
             if ids != before[-1]:
                 mon.count("rank_id_changes")
-        res = _run_one(sub, mon, codec, list(before))
+        res = _run_one(sub, mon, codec, list(before), shared)
         before.append(ids)
         if res is not None:
             done.append(res)
@@ -592,7 +638,7 @@ def _run_case(case, mon):
                 _coiterate(mon, group, "across-tensors", desc, merge=True, keep=True)
 
 
-def _run_one(case, mon, codec, before):
+def _run_one(case, mon, codec, before, cache=None):
     """One encoding and all its checks.  `codec`: the object to encode with (None = a fresh one); `before`: rank ids
     of the tensors that object encoded earlier.  Returns {"recs", "ot"} when the encoded fibers passed every
     sequential check (so that they can take part in further concurrent schedules), else None."""
@@ -621,12 +667,21 @@ def _run_one(case, mon, codec, before):
     # ---- encode (real code) -----------------------------------------------------------------
     try:
         with quiet():
-            out, ot = encode(t, desc, list(imposed) if imposed is not None else None, codec)
+            if cache is None:
+                cache = StubCache(case.get("cache_cap"))
+            out, ot = encode(t, desc, list(imposed) if imposed is not None else None, codec, cache)
     except BaseException as e:      # noqa
         mon.violation(f"encode:raised:{type(e).__name__}",
                       f"encode {desc} shape={imposed} raised {type(e).__name__}: {e}{ctx}")
         return
     mon.count("encodings")
+    if cache.capacity is not None:
+        mon.count("bounded_cache_encodings")
+    if cache.served > 1:
+        mon.count("shared_cache_encodings")
+        ctx += f" [cache object already served {cache.served - 1} earlier encoding(s)]"
+        if cache.same_names:
+            mon.count("shared_cache_same_names")
     if not want:
         mon.count("allzero_cases")
     mon.state(jhash([desc, out]))
@@ -671,6 +726,7 @@ def _run_one(case, mon, codec, before):
     if want:
         key = {k: case.get(k) for k in ("spec", "shape", "desc", "imposed")}
         key["rank_ids"], key["before"] = rank_ids, before
+        key["cache"] = [cache.served > 1, cache.capacity]
         mon.nontrivial(key)
     if recs is None:
         return None
@@ -749,6 +805,7 @@ def _check_scan(mon, rec, fib, index, ot, shape, desc, leaf):
     fmt = rec.fmt
     r = rec.rank
     what = f"scan:{fmt}:{'leaf' if leaf else 'interior'}"
+    ctag = _cache_tag(fib)
     cap = rec.shape + len(rec.coords) + 2
     bases = [0]
     if rec.shape >= 1:
@@ -758,7 +815,7 @@ def _check_scan(mon, rec, fib, index, ot, shape, desc, leaf):
         bases += sorted(b for b in extra if 0 < b <= rec.shape)
     for base, keep in [(b, k) for b in bases for k in (False, True)]:
         # keep: the handles are resolved only after the scan has ended (see _scan)
-        kind = ("full" if base == 0 else "from-base") + (":handles-kept" if keep else "")
+        kind = ("full" if base == 0 else "from-base") + (":handles-kept" if keep else "") + ctag
         how = "scan" if not keep else "scan (handles resolved after the scan ended)"
         exp = _expected_elements(rec, base)
         try:
@@ -880,6 +937,7 @@ def _judge(mon, cur, mode, desc):
     what = f"scan:concurrent:{mode}:{rec.fmt}:{'leaf' if cur.leaf else 'interior'}"
     where = f"{desc} rank {rec.rank} {rec.fmt} fiber (layout coords {rec.coords}, shape {rec.shape})"
     mon.count("concurrent_scans")
+    what += _cache_tag(cur.fib)
     if cur.keep:
         what += ":handles-kept"
         mode += ", handles resolved after all scans ended"
